@@ -94,6 +94,22 @@ type g2alt struct {
 	n      int64
 	top    bool
 	origin string // function holding the bounding allocation, or the reason for top
+	api    bool   // top because the value is the argument of an io.Writer-style Write: sized by the application
+}
+
+// g2isWriterWrite: fn has the shape of io.Writer.Write and p is its byte-slice argument.
+func g2isWriterWrite(p *ssa.Parameter) bool {
+	fn := p.Parent()
+	sig := fn.Signature
+	if sig.Recv() == nil || fn.Name() != "Write" || sig.Params().Len() != 1 || sig.Results().Len() != 2 {
+		return false
+	}
+	s, ok := sig.Params().At(0).Type().Underlying().(*types.Slice)
+	if !ok {
+		return false
+	}
+	b, ok := s.Elem().Underlying().(*types.Basic)
+	return ok && b.Kind() == types.Uint8 && len(fn.Params) == 2 && fn.Params[1] == p
 }
 
 type g2frame struct {
@@ -119,7 +135,7 @@ func g2sum(a, b []g2alt) []g2alt {
 	var out []g2alt
 	for _, x := range a {
 		for _, y := range b {
-			z := g2alt{n: x.n + y.n, top: x.top || y.top, origin: x.origin}
+			z := g2alt{n: x.n + y.n, top: x.top || y.top, origin: x.origin, api: x.api || y.api}
 			if x.top {
 				z.origin = x.origin
 			} else if y.top {
@@ -565,7 +581,9 @@ func (u *g2ub) paramUB(p *ssa.Parameter, fr *g2frame, asLen bool) []g2alt {
 	}
 	bs := u.bindings(p, fr)
 	if len(bs) == 0 {
-		return g2top("parameter " + p.Name() + " of " + kit.FuncName(p.Parent()) + " (no static caller)")
+		t := g2top("parameter " + p.Name() + " of " + kit.FuncName(p.Parent()) + " (no static caller)")
+		t[0].api = g2isWriterWrite(p)
+		return t
 	}
 	var out []g2alt
 	for _, b := range bs {
